@@ -93,6 +93,13 @@ def build_schema(spec, coerce_off=()):
             ix = spec["index"]
             index = pa.Index(_pd_dtype(ix["dt"]), checks=[_check(k, be) for k in ix.get("checks", [])],
                              coerce=ix.get("coerce", False) and "index" not in coerce_off, name=ix.get("name"))
+        if spec.get("mindex"):
+            mi = spec["mindex"]
+            index = pa.MultiIndex([pa.Index(_pd_dtype(l["dt"]), checks=[_check(k, be) for k in l.get("checks", [])],
+                                            coerce=l.get("coerce", False), name=l.get("name")) for l in mi["levels"]],
+                                  coerce=mi.get("coerce", False), strict=mi.get("strict", False))
+            if spec.get("entry") == "mindex":  # the component itself validates the frames (MultiIndex.validate)
+                return index
         return pa.DataFrameSchema(
             cols, checks=[_check(k, be) for k in spec.get("checks", [])], index=index,
             coerce=spec.get("coerce", False), strict=spec.get("strict", False), ordered=spec.get("ordered", False),
@@ -139,6 +146,13 @@ def _build_model(spec):
     cfg = {"strict": spec.get("strict", False), "coerce": spec.get("coerce", False),
            "ordered": spec.get("ordered", False)}
     ns["Config"] = type("Config", (), cfg)
+    if spec.get("broken"):
+        # a definition error only the first use of the model reports (SchemaInitError): a check on a field that
+        # does not exist
+        def positive(cls, series):
+            return series > 0
+
+        ns["positive"] = pa.check("does_not_exist")(classmethod(positive))
     ns["__annotations__"] = ann
     ns["__module__"] = __name__
     if be == "pd":
@@ -160,6 +174,8 @@ def build_data(call):
         df = pd.DataFrame({k: (pd.Series(list(v), dtype=object) if k in obj_cols else list(v)) for k, v in d["cols"].items()})
         if d.get("index") is not None:
             df.index = pd.Index(list(d["index"]))
+        if d.get("mindex") is not None:  # {"arrays": [[...], ...], "names": [...]} (names may repeat / be None)
+            df.index = pd.MultiIndex.from_arrays([list(a) for a in d["mindex"]["arrays"]], names=list(d["mindex"]["names"]))
         return df
     import polars as pl
 
